@@ -132,7 +132,7 @@ Inductive setup :=
          (sentBA : list bytes) (seenBA : list (N * bytes)).
 
 Inductive step :=
-| StPhase (a_sends : bool) (sops : list sop) (serr : list N) (wire : list xw)
+| StPhase (a_sends : bool) (sops : list sop) (serr : list N) (wire : option (list xw))   (* None: wire not compared *)
           (edit : option (list eframe)) (rops : list rop) (rres : list rres)
 | StHandoff (who_a : bool) (ok : bool)       (* ExportCryptoState then NewStreamWithCryptoState on the same connection *)
 | StCrypto (who_a : bool) (on : bool) (ok : bool).   (* SetCryptoMode on the receiving side too *)
@@ -211,7 +211,8 @@ Definition run_step (w : world) (st : step) : world * bool :=
       let hist := if a_sends then hab w else hba w in
       let '(s1, errs, fs) := run_sops snd_s sops in
       let hist1 := hist ++ fs in
-      let ok_send := eqb_list_N errs serr && all2 (frame_matches (wkey w)) fs wire in
+      let ok_send := eqb_list_N errs serr &&
+                     match wire with Some ws => all2 (frame_matches (wkey w)) fs ws | None => true end in
       let pend := if a_sends then pab w else pba w in
       let rfs := match edit with None => pend ++ fs | Some es => map (realize hist1) es end in
       let '(r1, lft, ok_recv) := run_rops rcv_s rfs rops rres in
